@@ -83,6 +83,10 @@ CHECKS = {
             "TLC enumerates every call sequence over fit(D1), fit(D2), predict(seed), pickle, clone per estimator kind (Lifecycle.tla: model determined by the last fit, parameters never change, predict is pure); each behaviour is executed on the six estimator classes for 13 configurations and the recorded history is validated by TLC against LifeTrace.tla",
             "per event: fit returns the estimator itself, constructor parameters reported by get_params unchanged, NotFittedError exactly when unfitted, repeated predict with one seed repeats the answer, and the fingerprint of the predictions after any history equals that of a FRESH identically configured estimator fitted on the same data (hence refit == fresh fit, pickle round trip and clone behave as specified)",
             "sequence length 3 in quick, 4 in thorough; model equality through an exact fingerprint of predictions on a fixed query set; D8 (nu overwritten by fit) is a recorded known finding", "5/C19"),
+    "C20": (["Validate.tla"],
+            "TLC enumerates the table of calls (entry point x argument x accepted container x defect, Validate.tla) with the guard MustReject and table-completeness invariants; every defective call is materialised on seeded random data with the defect at a seeded position and must raise (NotFittedError by type for prediction before fit); its defect-free twin must be accepted first",
+            "503 table entries: length defects (-2, -1, +1, +3 rows at random positions) for every per-row argument of MetricFrame, the fairness metrics, the six classification moments, ExponentiatedGradient/GridSearch/ThresholdOptimizer fit and ThresholdOptimizer.predict in list/ndarray/Series/DataFrame form; labels outside {0,1} (2, -1/1, 0.5); missing sensitive feature; degenerate group; control features / unsupported constraint-objective pairs for ThresholdOptimizer; bound, cost, weight and selection-rule parameters; duplicate / non-string feature names; missing CorrelationRemover column; seven predict-before-fit calls",
+            "any exception type counts as rejection; twins that are themselves rejected would be listed as skipped (none on the current tree)", "5/C20"),
 }
 
 PENDING_REASON = "check under construction in this session (DESIGN.md section 5 describes the planned TLA+ spec and binding); not yet claimed"
